@@ -9,6 +9,7 @@
    program, expression and statement nesting (no bound); the instance for today's source is closed by `decide` on the
    generated tables, so a dropped case label / visitor method / check site breaks exactly that instance. -/
 import UtapModel.Lemmas.Effect
+import UtapModel.Lemmas.EffectSub
 import UtapModel.Gen.EffectGen
 namespace UtapModel.C11
 open UtapModel UtapModel.Effect UtapModel.EffectGen
@@ -130,6 +131,25 @@ theorem C11_contexts : ∀ c ∈ Context.all, c.site ≠ none → ∀ typedOk co
     targets a constant is `C13`'s read analysis; a write to a constant is C12's lvalue rule.) -/
 theorem C11_contexts_computable : ∀ c ∈ Context.all, c.site = none → ∀ typedOk changes : Bool,
     c.rejects genCfg typedOk false changes = true := by decide
+
+theorem C11_erase_alike : genCfg.EraseAlike := by decide
+
+/-- Select domain, array size, range bound (no side-effect test of their own): whatever an expression accepted as
+    compile-time computable could write is itself a compile-time constant or a function symbol -- every written symbol is
+    also a read symbol (`collect_possible_writes ⊆ collect_possible_reads`, per function `changes ⊆ depends`).  A constant
+    is not a modifiable lvalue (property C12), so no accepted expression in these contexts writes a variable.
+    (`extFree` / `bodiesExtFree`: no call of an external, dlopen'ed function, whose effects the library cannot see.) -/
+theorem C11_computable_contexts_no_write (P : List FunDecl) (hb : bodiesExtFree genCfg P = true) (tab : SymTab) (e : Expr)
+    (hf : extFree genCfg e = true) (hctc : isCTC genCfg (analyse genCfg P) tab e = true) :
+    ∀ s ∈ collectWrites genCfg (analyse genCfg P) e, symOk tab s = true := by
+  intro s hs
+  exact symOk_of_isCTC hctc
+    (writes_sub_reads C11_tables_exact (by decide) (analyse_envSub C11_tables_exact C11_erase_alike P hb) e _ hf hs)
+
+/-- satisfiable, and sharp: `int z[pure(C)]` with a pure callee is accepted; `int z[(w = 1)]` is not computable -/
+example : bodiesExtFree genCfg demoPure = true ∧
+    isCTC genCfg (analyse genCfg demoPure) [(2, ⟨true, false⟩), (9, ⟨false, true⟩)] (demoCall 2 [.node .kIDENTIFIER 9 []]) = true ∧
+    isCTC genCfg (analyse genCfg demoPure) [(2, ⟨true, false⟩), (1, ⟨false, false⟩)] (demoAssign 1) = false := by decide
 
 /-- and the twin is not rejected by these checks: well-typed, computable, write-free passes every context -/
 theorem C11_contexts_twin : ∀ c ∈ Context.all, c.rejects genCfg true true false = false := by decide
